@@ -171,6 +171,8 @@ def values_eq(a, b, st=None):
     # of a pure __eq__
     for x, y in ((a, b), (b, a)):
         if isinstance(x, Opaque) and (type(y) in (int, str, bool) or y is None or isinstance(y, (SKind, SInt))):
+            if st is not None and hasattr(st, "notes"):
+                st.notes.append("equality of an unmodelled value with a constant is over-approximated by an arbitrary boolean")
             return z3.Bool(fresh_name("opaque_eq"))
     raise Unsupported(f"equality of {a!r} and {b!r}")
 
